@@ -97,6 +97,10 @@ pub fn check(ctx: &mut Ctx, case: &Case) -> CheckResult {
 const LINE_CHARS: &[(u32, &str)] = &[(20, "a"), (6, "b"), (5, " "), (4, ":"), (4, "-"), (2, "="), (2, "1"), (2, "/"), (2, "+"), (1, "é"), (1, "€"), (1, "\t"), (1, "#"), (1, "."), (1, "\u{a0}"), (1, "\u{2028}")];
 
 const LOOKALIKES: &[&str] = &[
+    "Version: GnuPG v1",
+    "Comment: GPGTools - https://gpgtools.org",
+    "Hash: SHA256",
+    "Charset: UTF-8",
     " -----BEGIN PGP SIGNATURE-----",
     "BEGIN PGP SIGNATURE",
     " -----END PGP SIGNATURE-----",
